@@ -22,7 +22,10 @@ Record core := mkCore {
   c_nodes : N;            (* Builder/Compiler nodes recorded *)
   c_vregs : N;            (* Compiler virtual registers *)
   c_ja : N;               (* Compiler jump annotations *)
-  c_final : bool          (* finalize() already run on the current content *)
+  c_final : bool;         (* finalize() already run on the current content *)
+  c_names : list N;       (* names of the named labels defined in the holder (as name ids) *)
+  c_addrtab : bool;       (* the holder has the library-created .addrtab section *)
+  c_lpool : bool          (* Compiler: the function being generated already has its local constant-pool node (and label) *)
 }.
 
 Record ambient := mkAmb { a_hlog : bool; a_own : bool; a_elog : bool; a_extra : bool }.   (* a_extra: a second, passive emitter is attached *)
@@ -32,9 +35,23 @@ Record state := mkState { s_core : core; s_valid : bool; s_amb : ambient; s_res 
 Record effect := mkEff { d_sec : N; d_lab : N; d_rel : N; d_nodes : N; d_vregs : N; d_ja : N;
                          d_pending : bool; d_final : bool; d_res : N }.
 
+(* ---- programs whose effect on the label / section / register / annotation counters is COMPUTED by the model ---- *)
+Inductive pop :=
+| PLabels (n : N)      (* n anonymous labels (new_label) *)
+| PNamed (id : N)      (* new_named_label with the name `id`: refused when the holder already has a label of that name *)
+| PSection             (* CodeHolder::new_section *)
+| PAddrTab             (* an absolute call in a 64-bit x86 Assembler: the library creates the .addrtab section the first time *)
+| PFunc (nargs : N)    (* Compiler::add_func: function label + exit label; one virtual register per argument (one scratch
+                          register when there is none, as the harness does) *)
+| PVreg (n : N)        (* n new virtual registers (new_gp64, new_stack) *)
+| PConst               (* a local constant: the first one of a function creates the pool node and its label *)
+| PEndFunc             (* end_func: the local pool is emitted and forgotten *)
+| PAnnot.              (* new_jump_annotation *)
+
 Inductive policy := Soft | Hard.
 Inductive step :=
 | SGen (e : effect)
+| SProg (ops : list pop) (drel : N) (pend : bool)    (* generate a program whose counter effects the model computes *)
 | SReset (p : policy)        (* CodeHolder::reset(p); init(env); attach(emitter) *)
 | SReinit                    (* CodeHolder::reinit() *)
 | SDetachAttach              (* detach(emitter); attach(emitter) *)
@@ -46,26 +63,58 @@ Inductive step :=
 | SExtra (on : bool)         (* attach / detach (or destroy) a second, passive emitter *)
 | SHeap (seed : N).          (* heap perturbation, pending environment / base-address choice: the model has no heap *)
 
-Definition core0 : core := mkCore true true 1 0 0 false 0 0 0 false.
+Definition core0 : core := mkCore true true 1 0 0 false 0 0 0 false [] false false.
 Definition state0 : state := mkState core0 false (mkAmb false false false false) 0.
 
 (* what on_detach followed by on_attach leaves of the emitter part of the core *)
 Definition emitter_cleared (c : core) : core :=
-  mkCore (c_init c) true (c_sec c) (c_lab c) (c_rel c) false 0 0 0 false.
+  mkCore (c_init c) true (c_sec c) (c_lab c) (c_rel c) false 0 0 0 false (c_names c) (c_addrtab c) false.
 (* what a holder reset + init (or a new holder) leaves of the holder part *)
 Definition holder_cleared (c : core) : core :=
-  mkCore true (c_att c) 1 0 0 (c_pending c) (c_nodes c) (c_vregs c) (c_ja c) (c_final c).
+  mkCore true (c_att c) 1 0 0 (c_pending c) (c_nodes c) (c_vregs c) (c_ja c) (c_final c) [] false (c_lpool c).
 
 Definition gen (e : effect) (c : core) : core :=
   if c_init c && c_att c then
     mkCore true true (c_sec c + d_sec e) (c_lab c + d_lab e) (c_rel c + d_rel e) (d_pending e)
            (c_nodes c + d_nodes e) (c_vregs c + d_vregs e) (c_ja c + d_ja e) (c_final c || d_final e)
+           (c_names c) (c_addrtab c) (c_lpool c)
+  else c.
+
+Definition set_counts (c : core) (sec lab vregs ja : N) (names : list N) (addrtab lpool : bool) : core :=
+  mkCore (c_init c) (c_att c) sec lab (c_rel c) (c_pending c) (c_nodes c) vregs ja (c_final c) names addrtab lpool.
+
+Definition do_pop (c : core) (o : pop) : core :=
+  match o with
+  | PLabels n => set_counts c (c_sec c) (c_lab c + n) (c_vregs c) (c_ja c) (c_names c) (c_addrtab c) (c_lpool c)
+  | PNamed id =>
+      if existsb (N.eqb id) (c_names c) then c
+      else set_counts c (c_sec c) (c_lab c + 1) (c_vregs c) (c_ja c) (id :: c_names c) (c_addrtab c) (c_lpool c)
+  | PSection => set_counts c (c_sec c + 1) (c_lab c) (c_vregs c) (c_ja c) (c_names c) (c_addrtab c) (c_lpool c)
+  | PAddrTab =>
+      if c_addrtab c then c
+      else set_counts c (c_sec c + 1) (c_lab c) (c_vregs c) (c_ja c) (c_names c) true (c_lpool c)
+  | PFunc n => set_counts c (c_sec c) (c_lab c + 2) (c_vregs c + (if N.eqb n 0 then 1 else n)) (c_ja c) (c_names c) (c_addrtab c) false
+  | PVreg n => set_counts c (c_sec c) (c_lab c) (c_vregs c + n) (c_ja c) (c_names c) (c_addrtab c) (c_lpool c)
+  | PConst =>
+      if c_lpool c then c
+      else set_counts c (c_sec c) (c_lab c + 1) (c_vregs c) (c_ja c) (c_names c) (c_addrtab c) true
+  | PEndFunc => set_counts c (c_sec c) (c_lab c) (c_vregs c) (c_ja c) (c_names c) (c_addrtab c) false
+  | PAnnot => set_counts c (c_sec c) (c_lab c) (c_vregs c) (c_ja c + 1) (c_names c) (c_addrtab c) (c_lpool c)
+  end.
+
+(* a program given by its operations; only the relocation count and the pending one-shot state after it are inputs *)
+Definition gen_prog (ops : list pop) (drel : N) (pend : bool) (c : core) : core :=
+  if c_init c && c_att c then
+    let c1 := fold_left do_pop ops c in
+    mkCore true true (c_sec c1) (c_lab c1) (c_rel c1 + drel) pend (c_nodes c1) (c_vregs c1) (c_ja c1) (c_final c1)
+           (c_names c1) (c_addrtab c1) (c_lpool c1)
   else c.
 
 Definition do_step (x : step) (s : state) : state :=
   let c := s_core s in let a := s_amb s in
   match x with
   | SGen e => mkState (gen e c) (s_valid s) a (s_res s + d_res e)
+  | SProg ops drel pend => mkState (gen_prog ops drel pend c) (s_valid s) a (s_res s)
   | SReset p =>
       (* reset clears the holder logger; the emitter keeps only its own logger *)
       (* ... and every attached emitter is detached; only the main one is attached again *)
